@@ -1,0 +1,63 @@
+//go:build verif
+
+// Contracts for deductive verification (comment-only; compiled only with -tags verif).
+// Syntax and semantics: /verif/DESIGN.md §2.6 and Appendix A.
+
+package hook
+
+// hasPermChannels is used by contract only (its body is encoding/json, assumed pure: A-JSON).
+//@ func hasPermChannels
+//@   opt trusted
+//@   ensures hasPerms == permHas(metadata)
+//@   assigns \nothing
+
+//@ func (BridgeHook) registerChannelAdmin
+//@   let k := (portID, channelID)
+//@   ensures err == nil ==> chan.nextSend[k] == Some(1) && old(perm.admin)[k] == None              // C19: channel_exists_fresh_and_unowned
+//@   ensures err == nil ==> perm.admin == old(perm.admin)[k := Some(admin)]                         // C19: grants_exactly_this_channel
+//@   assigns perm.admin[k]
+
+//@ func (BridgeHook) BridgeCreated
+//@   let ch := addrBytes(1, bridgeConfig.Challenger)
+//@   ensures !permHas(bridgeConfig.Metadata) ==> err == nil && perm.admin == old(perm.admin)        // C19: unparsable_metadata_touches_nothing
+//@   ensures err == nil && permHas(bridgeConfig.Metadata) ==> forall j int :: 0 <= j && j < len(metadata.PermChannels) ==>
+//@        perm.admin[(metadata.PermChannels[j].PortID, metadata.PermChannels[j].ChannelID)] == Some(ch)                          // C19: challenger_administers_listed_channels
+//@   ensures err == nil ==> forall k `(Pair Bytes Bytes)` :: perm.admin[k] != old(perm.admin)[k] ==>
+//@        perm.admin[k] == Some(ch) && old(perm.admin)[k] == None && chan.nextSend[k] == Some(1)                                 // C19: only_fresh_unowned_channels_granted
+//@   loop 0 invariant 0 <= $i && $i <= len(metadata.PermChannels)
+//@   loop 0 invariant forall j int :: 0 <= j && j < $i ==> perm.admin[(metadata.PermChannels[j].PortID, metadata.PermChannels[j].ChannelID)] == Some(challenger)
+//@   loop 0 invariant forall k `(Pair Bytes Bytes)` :: perm.admin[k] != old(perm.admin)[k] ==> perm.admin[k] == Some(challenger) && old(perm.admin)[k] == None && chan.nextSend[k] == Some(1)
+//@   assigns perm.admin
+
+//@ func (BridgeHook) BridgeMetadataUpdated
+//@   let ch := addrBytes(1, bridgeConfig.Challenger)
+//@   ensures !permHas(bridgeConfig.Metadata) ==> err == nil && perm.admin == old(perm.admin)        // C19: unparsable_metadata_touches_nothing
+//@   ensures err == nil && permHas(bridgeConfig.Metadata) ==> forall j int :: 0 <= j && j < len(metadata.PermChannels) ==>
+//@        perm.admin[(metadata.PermChannels[j].PortID, metadata.PermChannels[j].ChannelID)] == Some(ch)                          // C19: challenger_administers_listed_channels
+//@   ensures err == nil ==> forall k `(Pair Bytes Bytes)` :: perm.admin[k] != old(perm.admin)[k] ==>
+//@        perm.admin[k] == Some(ch) && old(perm.admin)[k] == None && chan.nextSend[k] == Some(1)                                 // C19: only_fresh_unowned_channels_granted
+//@   loop 0 invariant 0 <= $i && $i <= len(metadata.PermChannels)
+//@   loop 0 invariant forall j int :: 0 <= j && j < $i ==> perm.admin[(metadata.PermChannels[j].PortID, metadata.PermChannels[j].ChannelID)] == Some(challenger)
+//@   loop 0 invariant forall k `(Pair Bytes Bytes)` :: perm.admin[k] != old(perm.admin)[k] ==> perm.admin[k] == Some(challenger) && old(perm.admin)[k] == None && chan.nextSend[k] == Some(1)
+//@   assigns perm.admin
+
+//@ func (BridgeHook) BridgeChallengerUpdated
+//@   let ch := addrBytes(1, bridgeConfig.Challenger)
+//@   ensures !permHas(bridgeConfig.Metadata) ==> err == nil && perm.admin == old(perm.admin)        // C19: unparsable_metadata_touches_nothing
+//@   ensures err == nil && permHas(bridgeConfig.Metadata) ==> forall j int :: 0 <= j && j < len(metadata.PermChannels) ==>
+//@        perm.admin[(metadata.PermChannels[j].PortID, metadata.PermChannels[j].ChannelID)] == Some(ch)                          // C19: admin_handed_to_new_challenger
+//@   ensures err == nil ==> forall k `(Pair Bytes Bytes)` :: perm.admin[k] != old(perm.admin)[k] ==> perm.admin[k] == Some(ch)
+//@        && (exists j int :: 0 <= j && j < len(metadata.PermChannels) && k == (metadata.PermChannels[j].PortID, metadata.PermChannels[j].ChannelID))   // C19: only_listed_channels_change
+//@   loop 0 invariant 0 <= $i && $i <= len(metadata.PermChannels)
+//@   loop 0 invariant forall j int :: 0 <= j && j < $i ==> perm.admin[(metadata.PermChannels[j].PortID, metadata.PermChannels[j].ChannelID)] == Some(challenger)
+//@   loop 0 invariant forall k `(Pair Bytes Bytes)` :: perm.admin[k] != old(perm.admin)[k] ==> perm.admin[k] == Some(challenger)
+//@        && (exists j int :: 0 <= j && j < $i && k == (metadata.PermChannels[j].PortID, metadata.PermChannels[j].ChannelID))
+//@   assigns perm.admin
+
+//@ func (BridgeHook) BridgeProposerUpdated
+//@   ensures err == nil
+//@   assigns \nothing
+
+//@ func (BridgeHook) BridgeBatchInfoUpdated
+//@   ensures err == nil
+//@   assigns \nothing
